@@ -157,6 +157,8 @@ def open_ids(known):
 
 
 def write_evidence(pid, tier, seed, coverage, wall, violations, assumptions, level="model_checking"):
+    if os.environ.get("VERIF_REPO"):
+        return      # development run against a scratch copy of the repository: never evidence
     os.makedirs(os.path.join(ROOT, "evidence"), exist_ok=True)
     ev = {"property_id": pid, "tier": tier, "seed": seed, "level": level, "coverage": coverage,
           "assumptions": assumptions, "wall_s": round(wall, 1), "violations": violations}
